@@ -1,6 +1,7 @@
 package main
 
 import (
+	"fmt"
 	"encoding/json"
 	"math/rand"
 	"os"
@@ -25,6 +26,8 @@ type engNLP struct {
 	Cascade  []string `json:"cascade"`
 	HasTFIDF bool     `json:"has_tfidf"`
 	TFIDF    []eRes   `json:"tfidf"`
+	Sig      [][]int  `json:"sig"`  // the whole analysis flattened: keywords | enhanced | actions | targets | intent
+	Sig2     [][]int  `json:"sig2"` // the same from a repeated analysis (the first of 8 repetitions that differs, else the last)
 }
 
 type engCase struct {
@@ -104,6 +107,27 @@ func engOracles(c *engCase, db *database.Database, q string) {
 	pq, _ := db.VerifEnhance(q, database.VerifTokenize(q))
 	c.NLP = engNLP{Actions: intsList(pq.Actions), Targets: intsList(pq.Targets), Keywords: intsList(pq.Keywords),
 		Enhanced: intsList(pq.GetEnhancedKeywords()), Intent: string(pq.Intent)}
+	sig := func(p *nlp.ProcessedQuery) [][]int {
+		var l []string
+		l = append(l, p.Keywords...)
+		l = append(l, "|")
+		l = append(l, p.GetEnhancedKeywords()...)
+		l = append(l, "|")
+		l = append(l, p.Actions...)
+		l = append(l, "|")
+		l = append(l, p.Targets...)
+		l = append(l, "|", string(p.Intent))
+		return intsList(l)
+	}
+	c.NLP.Sig = sig(pq)
+	c.NLP.Sig2 = c.NLP.Sig
+	for k := 0; k < 8; k++ {
+		p2, _ := db.VerifEnhance(q, database.VerifTokenize(q))
+		c.NLP.Sig2 = sig(p2)
+		if fmt.Sprint(c.NLP.Sig2) != fmt.Sprint(c.NLP.Sig) {
+			break
+		}
+	}
 	for i := 0; i < n; i++ {
 		c.NLP.IntentB = append(c.NLP.IntentB, hexf(db.VerifIntentBoost(i, pq)))
 		c.NLP.Cooccur = append(c.NLP.Cooccur, db.VerifCooccur(i, pq))
@@ -177,8 +201,64 @@ func engRun(c *engCase, cmds []database.Command, dir string) {
 	cdb := database.NewCachedDatabase(db)
 	c.Extra["cached1"] = projectResults(db, cdb.SearchWithOptionsAndCache(q, o))
 	c.Extra["cached2"] = projectResults(db, cdb.SearchWithOptionsAndCache(q, o))
+	// a cache that already holds the answers to requests differing from this one in exactly one option
+	vdb := database.NewCachedDatabase(db)
+	for _, v := range engVariants(o, n) {
+		vdb.SearchWithOptionsAndCache(q, v)
+	}
+	c.Extra["cached_after_variants"] = projectResults(db, vdb.SearchWithOptionsAndCache(q, o))
 	c.Extra["legacy_pipeline"] = projectResults(db, db.SearchWithPipelineOptions(q, o))
 	c.Extra["search"] = projectResults(db, db.Search(q, o.Limit))
+}
+
+// engVariants: the request with exactly one option changed, one variant per option
+func engVariants(o database.SearchOptions, n int) []database.SearchOptions {
+	var out []database.SearchOptions
+	add := func(f func(*database.SearchOptions)) {
+		v := o
+		f(&v)
+		out = append(out, v)
+	}
+	add(func(v *database.SearchOptions) { v.NoCrossPlatform = !v.NoCrossPlatform })
+	add(func(v *database.SearchOptions) { v.PipelineOnly = !v.PipelineOnly })
+	add(func(v *database.SearchOptions) { v.AllPlatforms = !v.AllPlatforms })
+	add(func(v *database.SearchOptions) {
+		if len(v.Platforms) == 0 {
+			v.Platforms = []string{"windows"}
+		} else {
+			v.Platforms = nil
+		}
+	})
+	add(func(v *database.SearchOptions) {
+		switch {
+		case v.Limit <= 0:
+			v.Limit = 5
+		case v.Limit == 5:
+			v.Limit = 0
+		default:
+			v.Limit = v.Limit + 1
+		}
+	})
+	add(func(v *database.SearchOptions) { v.Limit = n + 7 })
+	add(func(v *database.SearchOptions) { v.UseNLP = !v.UseNLP })
+	add(func(v *database.SearchOptions) { v.UseFuzzy = !v.UseFuzzy })
+	add(func(v *database.SearchOptions) { v.FuzzyThreshold = v.FuzzyThreshold - 17 })
+	add(func(v *database.SearchOptions) {
+		if v.TopTermsCap <= 0 {
+			v.TopTermsCap = 3
+		} else {
+			v.TopTermsCap = 0
+		}
+	})
+	add(func(v *database.SearchOptions) { v.PipelineBoost = v.PipelineBoost + 1.5 })
+	add(func(v *database.SearchOptions) {
+		nb := map[string]float64{"files": 1.7}
+		for k, x := range v.ContextBoosts {
+			nb[k] = x + 0.25
+		}
+		v.ContextBoosts = nb
+	})
+	return out
 }
 
 func runEng(seed int64, n int, replay string, e *emitter) {
@@ -198,9 +278,43 @@ func runEng(seed int64, n int, replay string, e *emitter) {
 	}
 	for i := 0; i < n; i++ {
 		r := rand.New(rand.NewSource(seed*1000003 + int64(i)))
-		cmds := eGenDB(r)
-		q := eGenQuery(r, cmds)
-		c := engCase{ID: i, Seed: seed, Query: ints(q), Opts: eGenOpts(r, len(cmds), cmds), Recased: ints(recase(r, q))}
+		var cmds []database.Command
+		var q string
+		var opts eOpts
+		harvested := false
+		if r.Intn(7) == 0 {
+			cmds, q, opts = eScenario(r)
+		} else if r.Intn(5) == 0 {
+			// a query made of the phrases one decision of the NLP code tests for; enhancement on, nothing filtered or cut
+			harvested = true
+			for k, m := 0, r.Intn(6); k < m; k++ {
+				cmds = append(cmds, eGenCommand(r))
+			}
+			q = harvestedQuery(r, i)
+			opts = eOpts{NLP: true, Fuzzy: r.Intn(3) == 0, AllPlatforms: true, Limit: 60}
+		} else {
+			cmds = eGenDB(r)
+			q = eGenQuery(r, cmds)
+			opts = eGenOpts(r, len(cmds), cmds)
+		}
+		rq := recase(r, q)
+		if (harvested || r.Intn(4) == 0) && len(cmds) < 30 {
+			// make every expansion term of the query (and of its re-cased spelling) observable: one entry per term,
+			// so that two analyses which differ give two different answers
+			seen := map[string]bool{}
+			for _, qq := range []string{q, rq} {
+				func() {
+					defer func() { recover() }()
+					for _, t := range nlp.NewQueryProcessor().ProcessQuery(qq).GetEnhancedKeywords() {
+						if !seen[t] && len(seen) < 14 && t != "" {
+							seen[t] = true
+							cmds = append(cmds, database.Command{Command: t, Description: "entry for the term " + t})
+						}
+					}
+				}()
+			}
+		}
+		c := engCase{ID: i, Seed: seed, Query: ints(q), Opts: opts, Recased: ints(rq)}
 		engRun(&c, cmds, dir)
 		e.emit(c)
 	}
